@@ -127,6 +127,11 @@ def laws(tier):
     out.append(_i("Enum(Int16sb, E)<->keywords", "Enum(Int16sb, E)", "Enum(Int16sb, one=1, two=2)", [1, 2], ("enum", ("fmt", "Int16sb"), [["one", 1], ["two", 2], ["three", 3]]), extra="E"))
     out.append(_i("FlagsEnum(Byte, F)<->keywords", "FlagsEnum(Byte, F)", "FlagsEnum(Byte, one=1, two=2, eight=8)", [0, 1, 2],
                   ("flagsenum", ("fmt", "Int8ub"), [["one", 1], ["two", 2], ["eight", 8]]), extra="F"))
+    # enum classes with aliases / combined and zero-valued flag names: iteration over the class (what the law's left side
+    # uses) yields the canonical members only
+    out.append(_i("Enum(Byte, E with alias)<->keywords", "Enum(Byte, E)", "Enum(Byte, one=1, two=2)", [0, 1, 2], ("enum", ("fmt", "Int8ub"), [["one", 1], ["two", 2], ["uno", 1]]), extra="E2"))
+    out.append(_i("FlagsEnum(Byte, F with combined names)<->keywords", "FlagsEnum(Byte, F)", "FlagsEnum(Byte, one=1, two=2, eight=8)", [0, 1, 2],
+                  ("flagsenum", ("fmt", "Int8ub"), [["one", 1], ["two", 2], ["eight", 8]]), extra="F2"))
     for w in ("Hex", "HexDump"):
         out.append(_i("%s(Int32ul)<->Int32ul" % w, "%s(Int32ul)" % w, "Int32ul", [3, 4, 5], ("fmt", "Int32ul")))
         out.append(_i("%s(Bytes(3))<->Bytes(3)" % w, "%s(Bytes(3))" % w, "Bytes(3)", [2, 3, 4], ("bytes", 3)))
@@ -162,6 +167,9 @@ def instances(tier, seed):
             out.append(dict(name="parse%d %s" % (n, law["name"]), params=dict(base, op="parse", n=n)))
         if law["dom"] is not None:
             out.append(dict(name="build  %s" % law["name"], params=dict(base, op="build", dom=J(law["dom"]))))
+        out.append(dict(name="embed  %s" % law["name"], params=dict(base, op="embed")))
+    for op_, ctor in (("+", "Struct"), (">>", "Sequence")):
+        out.append(dict(name="chain  header = a %s b; packet = header %s c leaves header alone" % (op_, op_), params=dict(op="chain", oper=op_, ctor=ctor, tier=tier, kw=[], extra=None, lhs="", rhs="")))
     return out
 
 
@@ -176,6 +184,21 @@ def _extra(C, which):
         if True:
             E3 = enum.IntEnum("E", dict(one=1, two=2))
         return {"E": E}
+    if which == "E2":
+        class E(enum.IntEnum):
+            one = 1
+            two = 2
+            uno = 1
+        return {"E": E}
+    if which == "F2":
+        class F(enum.IntFlag):
+            none = 0
+            one = 1
+            two = 2
+            eight = 8
+            three = 3
+            all = 11
+        return {"F": F}
     if which == "F":
         class F(enum.IntFlag):
             one = 1
@@ -199,7 +222,49 @@ def _domain(ctx, dom, tier, kwvals):
     return domain(ctx, dom, "v", tier, wide=True)
 
 
+def _chain(ctx, C, p):
+    """operator spellings build NEW constructs: extending `header` into `packet` must leave `header` what it was"""
+    ns = {}
+    names = ("'a'/Byte", "'b'/Int16sl", "'c'/VarInt") if p["oper"] == "+" else ("Byte", "Int16sl", "VarInt")
+    header = mk(C, "%s %s %s" % (names[0], p["oper"], names[1]))
+    fresh = mk(C, "%s(%s, %s)" % (p["ctor"], names[0], names[1]))
+    packet = header + mk(C, names[2]) if p["oper"] == "+" else header >> mk(C, names[2])
+    full = mk(C, "%s(%s)" % (p["ctor"], ", ".join(names)))
+    n = ctx.choice("len", [3, 4, 5])
+    data = ctx.bytes("data", n)
+    for what, x, y in (("header", header, fresh), ("packet", packet, full)):
+        s1, s2 = ctx.stream(data), ctx.stream(data)
+        r1, r2 = api.outcome(x.parse_stream, s1), api.outcome(y.parse_stream, s2)
+        ctx.check("%s accepts exactly what its constructor form accepts" % what, r1.ok == r2.ok)
+        if r1.ok:
+            ctx.check("%s parses to the value its constructor form gives" % what, ctx.eq(r1.value, r2.value) and s1.tell() == s2.tell())
+            b1, b2 = api.outcome(x.build, r1.value), api.outcome(y.build, r2.value)
+            ctx.check("%s builds what its constructor form builds" % what, b1.ok == b2.ok and (not b1.ok or ctx.fork(ctx.eq(b1.value, b2.value))))
+    ctx.check("sizeof of header is that of its constructor form", api.outcome(header.sizeof).ok == api.outcome(fresh.sizeof).ok and header.sizeof() == fresh.sizeof())
+    return "ok"
+
+
+def _embed(ctx, C, L, R, kw):
+    """the two sides are interchangeable as members of a Struct too: same behaviour when the member is omitted or None,
+    same sizeof, same flagbuildnone"""
+    ctx.check("both sides agree on whether they build from None (flagbuildnone)", bool(L.flagbuildnone) == bool(R.flagbuildnone))
+    s1, s2 = api.outcome(L.sizeof, **kw), api.outcome(R.sizeof, **kw)
+    ctx.check("sizeof: both answer or both fail", s1.ok == s2.ok)
+    if s1.ok:
+        ctx.check("sizeof: equal", ctx.eq(s1.value, s2.value))
+    t = ctx.int("t", 0, 255)
+    for what, v in (("omitted", dict(t=t)), ("None", dict(m=None, t=t))):
+        SL, SR = C.Struct("m" / L, "t" / C.Byte), C.Struct("m" / R, "t" / C.Byte)
+        r1, r2 = api.outcome(SL.build, dict(v), **kw), api.outcome(SR.build, dict(v), **kw)
+        ctx.check("as a Struct member with the value %s: both build or both refuse" % what, r1.ok == r2.ok)
+        if r1.ok:
+            ctx.check("as a Struct member with the value %s: identical bytes" % what, ctx.eq(r1.value, r2.value))
+    return "ok"
+
+
 def harness(ctx, C, p):
+    if p["op"] == "chain":
+        return _chain(ctx, C, p)
     extra = _extra(C, p.get("extra"))
     if p.get("extra") == "E" and "Int16sb" in p["lhs"]:
         import enum
@@ -208,6 +273,8 @@ def harness(ctx, C, p):
     kw = {}
     for k in p["kw"]:
         kw[k] = ctx.int("kw." + k, -1, 3)
+    if p["op"] == "embed":
+        return _embed(ctx, C, L, R, kw)
     if p["op"] == "parse":
         data = ctx.bytes("data", p["n"])
         s1, s2 = ctx.stream(data), ctx.stream(data)
